@@ -142,7 +142,8 @@ def mutations(ep, adesc, outcome, args, salt):
         if outcome == "repeated":
             return [{"op": "dup_header", "name": wname, "value": "1" if adesc["typed"] else "x"}], None
         if outcome == "nontext":
-            return [{"op": "set_header", "name": wname, "bytes": list(bad.encode()) + [0xff, 0xfe]}], bad
+            tail = [[0xff, 0xfe], list("\u00e9".encode()), list("\u2603".encode()), [0xe9], [0x80], list("caf\u00e9".encode())][salt % 6]
+            return [{"op": "set_header", "name": wname, "bytes": list(bad.encode()) + tail}], bad
         return [{"op": "set_header", "name": wname, "value": bad + "-notanumber"}], bad
     if kind == "path":
         if outcome == "multi":
@@ -159,7 +160,7 @@ def mutations(ep, adesc, outcome, args, salt):
             return [{"op": "drop_header", "name": hname}], None
         if outcome == "nontext":
             pre = "Bearer " if kind == "auth" else "sid="
-            return [{"op": "set_header", "name": hname, "bytes": list((pre + tok).encode()) + [0xff]}], None
+            return [{"op": "set_header", "name": hname, "bytes": list((pre + tok).encode()) + [[0xff], list("\u00e9".encode()), [0xe9]][salt % 3]}], None
         if outcome == "nodelim":
             return [{"op": "set_header", "name": hname, "value": [tok, ("Bearer" if kind == "auth" else "sid") + tok, tok + tok][salt % 3]}], None
         if outcome == "badprefix":
